@@ -6,7 +6,70 @@ import os
 ROOT = os.path.dirname(os.path.dirname(os.path.abspath(__file__)))
 
 # property id -> (technique, level text, level note, design ref)
+SP_NOTE = ("Trusted: Lean kernel (+leanchecker in the thorough tier); propext/Classical.choice/Quot.sound; the xmlsec1 stand-in "
+           "(harness/standin) and the ideal-crypto abstraction of signatures/encryption in the model; the independent "
+           "Response writer harness/spflow.py and the canonicalisation of the outcome; the virtual clock. Exercised, not "
+           "modelled: XML parsing, pysaml2's object model, schema / xmldsig-profile validators (C02), key selection (C03).")
+
 CLAIMED = {
+    "C01": (
+        "Lean 4 theorem over the shared SP model + exhaustive truth-table correspondence with the real SP",
+        "Machine-checked proof (Lean 4) about Sp.process, the executable model of parse_authn_request_response -> "
+        "_parse_response (two forced passes) -> loads/verify/_assertion: for every configuration, clock and message, identity "
+        "implies that every signature present verifies and the Response/assertions carry what want_response_signed / "
+        "want_assertions_signed / want_assertions_or_response_signed demand (C01_sound); the option defaults are regenerated "
+        "from client_base.py and pinned by C01_defaults. The completeness half is stated (C01_complete_full) and decided by the "
+        "run: the complete table (9 option settings x 4 x 4 signature states x plain/encrypted x 3 bindings = 864 cells, plus "
+        "PAOS, undecryptable, random content, cross-dimension defects) is executed against the real Saml2Client through the "
+        "stand-in, model and implementation must agree on every cell, and the Lean spec (sound + complete) is evaluated on the "
+        "implementation's own outcome.",
+        SP_NOTE, "DESIGN.md section 6 C01 + shared SP model"),
+    "C04": (
+        "Lean 4 theorems (induction over audience/confirmation lists) over the shared SP model + small-scope exhaustive correspondence",
+        "Machine-checked proof (Lean 4): for audience structures of any size, any Destination/Recipient strings and any "
+        "configuration, identity implies every non-empty AudienceRestriction of every visible assertion names the own entityID "
+        "(after str.strip), a present Destination on a browser binding is an own endpoint for that binding, and with conversation "
+        "info every used bearer Recipient is the entityID or a consumer URL (C04_audience, C04_destination, C04_recipient, "
+        "C04_exact, C04_model_meets_spec). Every run enumerates all audience shapes up to 2 (thorough: 3) restrictions x 1-2 "
+        "audiences over {own, other, look-alike, padded}, the full Destination x Recipient x conv_info x binding product and "
+        "random look-alikes against the real SP; model = implementation on every case; Lean spec evaluated on the implementation's outcome.",
+        SP_NOTE, "DESIGN.md section 6 C04"),
+    "C05": (
+        "Lean 4 theorems (linear arithmetic over unbounded Int clocks) over the shared SP model + exhaustive boundary sweeps",
+        "Machine-checked proof (Lean 4): for every clock value, skew and message, identity implies now <= NotOnOrAfter+skew, "
+        "NotBefore <= now+skew and NotBefore <= NotOnOrAfter for Conditions, for every used bearer SubjectConfirmationData and for "
+        "SessionNotOnOrAfter, |now-IssueInstant| <= 1 day+skew, and the reported expiry is SessionNotOnOrAfter when present else "
+        "Conditions NotOnOrAfter (C05_windows/_expired/_premature/_inverted/_stale_instant/_reported_expiry/_model_meets_spec_sound). "
+        "Completeness (strictly inside => accepted) is stated (C05_inside_accepted_full) and decided by the run. Each of the six "
+        "timestamps is swept over 29 offsets (incl. +-skew+-1/2 s, +-1 day+-skew+-1/2 s) x skew {unset,0,60,180} x two syntaxes "
+        "under a frozen virtual clock against the real SP; combinations sampled.",
+        SP_NOTE + " time.strptime/calendar.timegm exercised, not modelled.", "DESIGN.md section 6 C05"),
+    "C06": (
+        "Lean 4 theorems over the shared SP model + regenerated status-code table lemmas + exhaustive product correspondence",
+        "Machine-checked proof (Lean 4): for outstanding sets of any size and any message, identity over a browser binding "
+        "(unsolicited not allowed) implies InResponseTo is outstanding, the returned came_from is the stored one and every "
+        "SubjectConfirmationData InResponseTo of every visible (plain or decrypted) assertion equals it; identity implies status "
+        "Success, version 2.0, >=1 assertion, exactly one AuthnStatement and a Subject (C06_correlated, C06_shape, C06_status, "
+        "C06_version, C06_model_meets_spec). STATUSCODE2EXCEPTION and samlp.STATUS_* are regenerated into Gen/StatusCodes.lean every "
+        "run: C06_table_complete/_names/_functional/_size/_views_agree (by decide) pin 21 entries, CamelCase class names, StatusError "
+        "base. The run enumerates IRT x SC-IRT x unsolicited x outstanding x binding, every status code, versions, assertion / "
+        "AuthnStatement counts, subject presence, encrypted carriers, data-less confirmations against the real SP and compares the "
+        "raised exception's class name with the table.",
+        SP_NOTE, "DESIGN.md section 6 C06"),
+    "C07": (
+        "Lean 4 theorems over an executable model of request reception + regenerated dispatch table + exhaustive differential correspondence",
+        "Machine-checked proof (Lean 4): for every configuration, metadata certificate list, message and clock the model of "
+        "Entity._parse_request/Request._loads/_verify/correctly_signed_message/verify_redirect_signature processes a request only with "
+        "the signature the configuration calls for (enveloped for POST/SOAP, detached over SAMLRequest+RelayState+SigAlg for Redirect, "
+        "made with a metadata key of the issuer), never with a bad enveloped signature unless certificate-only validation was opted "
+        "into, only with version 2.0, a Destination among the configured endpoints (when any) and an IssueInstant within a day plus "
+        "skew (15 theorems). The request-class dispatch table is regenerated each run and its well-formedness re-proved. Every run "
+        "executes model and real Server on the complete quantifier table (38 400 cells) plus directed/random cases and evaluates the "
+        "Lean specification on the implementation's own outcome.",
+        "Trusted: Lean kernel; propext/Quot.sound/Classical.choice; xmlsec1 stand-in and ideal-signature abstraction; the harness's "
+        "independent request writer; translator introspection. Exercised, not modelled: XML parsing, profile validators (C02), "
+        "MetaData.certs (C03), certificate chain validation. Certificate-only mode is read as 'requires signed requests, promises presence not validity'.",
+        "DESIGN.md section 6 C07"),
     "C08": (
         "Lean 4 theorems over an executable routing model + differential correspondence with the real code",
         "Machine-checked proof (Lean 4): for every metadata shape, binding list, URL and index the model of "
@@ -18,6 +81,18 @@ CLAIMED = {
         "extraction from prepared HTTP info); mdstore XML->dict conversion exercised but not modelled; single source.",
         "DESIGN.md section 6 C08",
     ),
+    "C20": (
+        "Lean 4 theorems (induction over arbitrary schedules) over an executable model of get_signer/sign/verify + real threads under a deterministic gate scheduler",
+        "Machine-checked proof (Lean 4): for every set of threads (any number, any programs, threads may share an entity), every "
+        "algorithm table and every schedule, each redirect signature the model produces is the caller's own key over the caller's "
+        "own octets with the URL's digest, hence verifies under the caller's certificate and under no other key (7 theorems incl. "
+        "model_meets_spec and the counterexample for the pre-fix shared-key design). The model is executed on every run beside the "
+        "real code: real threads for Saml2Client/Server entities with distinct keys, gated at RSACrypto.get_signer / RSASigner.sign / "
+        "RSASigner.verify, all interleavings of 2 and (thorough) 3 threads; each produced Signature is verified against every entity "
+        "certificate and the Lean spec is evaluated on the implementation's own output.",
+        "Trusted: Lean kernel (+leanchecker thorough); propext/Quot.sound; harness gate scheduler and its own RSA verification of the "
+        "URL; ideal-crypto reading of RSA/SHA; algorithm tables read from the running code. Preemption inside a gated call is not explored.",
+        "DESIGN.md section 6 C20"),
 }
 
 REASON_PENDING = "check under construction (DESIGN.md section 9); not claimed yet"
